@@ -42,7 +42,8 @@ def bounds(tier, seed):
                 'core': 'files of 1..2 records x all 16 configurations x all k',
                 'extension_slice': '3-record files on configurations with (index+seed)%4==0'}
     return {'max_records': 4, 'variants': [0, 1, 2], 'k': 'all 1..size+2', 'mixed_k2': [1, 'size'],
-            'four_record_files': 'variants 0 and 1 only (16 files); 1..3 records: all three variants',
+            'four_record_files': 'variants 0 and 1 only (16 files) on a fixed quarter of the configurations; 1..3 records: all three variants, all 16 configurations',
+            'mixed_schedules': 'every k1 for files of <= 2 records, a 9-value k1 menu for longer files',
             'formats': C01_FORMATS}
 
 
@@ -170,10 +171,11 @@ def check_case(res, fmt, variants, eol, final_newline, gz, lazy, scheds, whole_c
                     'schedules': len(scheds), 'whole_entries': len(whole)})
 
 
-def schedules(size, tier, b):
+def schedules(size, tier, b, n_records=1):
     out = [('const', k) for k in range(1, size + 3)]
     k2s = [k2 if k2 != 'size' else size for k2 in b['mixed_k2']]
-    k1s = range(1, size + 3) if tier == 'thorough' else [1, 2, 3, 5, 8, 13, size // 2, size - 1, size]
+    # mixed schedules read_chunk(k1) then read_chunks(k2): every k1 for files of <= 2 records in thorough, a fixed menu otherwise
+    k1s = range(1, size + 3) if (tier == 'thorough' and n_records <= 2) else [1, 2, 3, 5, 8, 13, size // 2, size - 1, size]
     seen = set()
     for k1 in k1s:
         for k2 in k2s:
@@ -272,12 +274,14 @@ def run_shard(desc, deadline):
     b = bounds(desc['tier'], desc.get('seed', 0))
     for ci, (eol, fn, gz, lazy) in enumerate(CONFIGS):
         if desc['tier'] == 'quick' and len(desc['variants']) >= 3 and (ci + desc.get('seed', 0)) % 4 != 0:
-            continue      # extension slice (DESIGN 10): rotated by VERIF_SEED; thorough runs all of it
+            continue      # extension slice (DESIGN 10): rotated by VERIF_SEED; thorough runs all of it for <= 3 records
+        if desc['tier'] == 'thorough' and len(desc['variants']) >= 4 and (ci // 4 + ci) % 4 != 0:
+            continue      # 4-record files: a fixed quarter of the configurations (each of plain/gzip x lazy/eager occurs)
         if deadline.expired():
             res.capped = True
             break
         f, recs, data = build(desc['fmt'], desc['variants'], eol, fn)
-        scheds = schedules(len(data), desc['tier'], b)
+        scheds = schedules(len(data), desc['tier'], b, len(desc['variants']))
         check_case(res, desc['fmt'], desc['variants'], eol, fn, gz, lazy, scheds)
     return res
 
